@@ -4,6 +4,7 @@ import SeqVerif.Proofs.C03Posting
 import SeqVerif.Proofs.C03FracProofs
 import SeqVerif.Proofs.C03Select
 import SeqVerif.Proofs.C03SearchProofs
+import SeqVerif.Proofs.C03C02
 import SeqVerif.Extracted.C03
 /-!
 # C03 - answers do not depend on the fraction form (active = sealed = reloaded = any cache)
@@ -194,6 +195,35 @@ theorem c03_search_sealed_eq_active (size cap rbs base : Nat) (posOf : ID → Na
       search (sealedIndex s) q fromMID toMID rev limit histInterval = search (activeIndex a) q fromMID toMID rev limit histInterval := by
   obtain ⟨s, hs, hag⟩ := seal_agrees size cap rbs base posOf a h hsize hcap
   exact ⟨s, hs, search_agree a s hag q hq fromMID toMID rev limit histInterval⟩
+
+/-! ## composition with C02: the sealed form answers `Spec.search` of the active form's documents -/
+
+/-- **C03 x C02.**  The index read back from the sealed structures (`sealedView`: `GetMID/GetRID` of every LID,
+`GetValByTID` and the drained posting iterator of every tid, through the block/table/iterator models) is a
+well-formed C02 index (`EvalTree.WF`, `SortedDesc`, RIDs within uint64), its posting nodes are C02's `narrow`, and
+`processor.IndexSearch` on it (C02's `EvalTree.search`, every query tree incl. NOT, window, order, limit, total) returns
+`Spec.search` of **the documents of the active fraction** (`activeDocs`: IDs and tokens by active LID) -/
+theorem c03_sealed_search_eq_spec (names : List SV.Spec.Bytes) (size cap rbs base : Nat) (posOf : ID → Nat) (a : Active)
+    (h : Quiescent a) (hsize : 1 ≤ size) (hcap : 1 ≤ cap) (q : SV.Spec.Query) (from_ to : Nat)
+    (h0 : 0 < from_ ∨ ∀ id ∈ (activeView names a).ids, id ≠ ⟨0, 0⟩) (asc : Bool) (limit : Nat) (withTotal : Bool) :
+    ∃ s, sealFrac size size cap rbs base posOf a = .ok s ∧
+      SV.EvalTree.WF (sealedView names a s) ∧ SV.Borders.SortedDesc (sealedView names a s).ids ∧
+      SV.EvalTree.search (sealedView names a s) q from_ to asc limit withTotal =
+        SV.Spec.search (activeDocs names a) q from_ to asc limit withTotal := by
+  obtain ⟨s, hs, hag⟩ := seal_agrees size cap rbs base posOf a h hsize hcap
+  obtain ⟨hwf, hsd, hr⟩ := activeView_wf names a h
+  refine ⟨s, hs, ?_⟩
+  rw [sealedView_eq names a s h hag]
+  refine ⟨hwf, hsd, ?_⟩
+  rw [SV.EvalTree.search_eq_spec (activeView names a) hwf hsd hr q from_ to h0 asc limit withTotal,
+    docsOf_activeView names a h]
+
+/-- the sealed posting iterator is exactly the `narrow` node C02's evaluation tree is built from -/
+theorem c03_sealedNode_eq_c02_narrow (names : List SV.Spec.Bytes) (a : Active) (s : Sealed) (h : Quiescent a)
+    (hag : IndexAgree a s) (tid : Nat) (h1 : 1 ≤ tid) (h2 : tid ≤ a.fields.flatten.length) (lo hi : Nat) (rev : Bool) :
+    sealedNode s tid lo hi rev =
+      .ok (SV.EvalTree.narrow rev lo hi (((activeView names a).toks[tid - 1]?).map (·.lids) |>.getD [])) :=
+  sealedNode_eq_narrow names a s h hag tid h1 h2 lo hi rev
 
 /-! ## Obligations on facts re-extracted from /repo on every run -/
 
